@@ -162,3 +162,44 @@ func VerifC01_reload() {
 		vrt.Assert(count[i] == w[i], "C01/exact-share-after-reload")
 	}
 }
+
+// VerifC01_deterministic: the selection sequence is a function of the ordered weight list only: two
+// sub-clusters with the same weights, one of them carrying incidental per-backend state (request
+// failure counts, health-check success counts, connection counts), select the same sequence.
+func VerifC01_deterministic() {
+	n := vrt.Range("n", 2, vrt.Param("N", 3))
+	wmax := vrt.Param("WMAX", 6)
+	w := make([]int, 4)
+	sum := 0
+	for i := 0; i < n; i++ {
+		w[i] = vrt.Int("w")
+		vrt.Assume(w[i] >= 1 && w[i] <= wmax)
+		sum += w[i]
+	}
+	vrt.Assume(sum <= wmax)
+	a := NewBalanceRR("sc")
+	a.Init(mkConfC01(n, w))
+	b := NewBalanceRR("sc")
+	b.Init(mkConfC01(n, w))
+	for i := 0; i < n; i++ {
+		back := b.backends[i].backend
+		for k := vrt.Range("fails", 0, 2); k > 0; k-- {
+			back.AddFailNum()
+		}
+		for k := vrt.Range("conns", 0, 1); k > 0; k-- {
+			back.IncConnNum()
+		}
+		for k := vrt.Range("succ", 0, 1); k > 0; k-- {
+			back.AddSuccNum()
+		}
+	}
+	for step := 0; step < wmax; step++ {
+		if step >= sum {
+			break
+		}
+		x, e1 := a.Balance(WrrSmooth, nil)
+		y, e2 := b.Balance(WrrSmooth, nil)
+		vrt.Assert(e1 == nil && e2 == nil && x != nil && y != nil, "C01/selects")
+		vrt.Assert(x.Addr == y.Addr, "C01/sequence-depends-only-on-weights")
+	}
+}
